@@ -58,3 +58,13 @@ def loaders_agree(data, want_snap, snap_fn, prop, suffix):
             os.unlink(name)
         except OSError:
             pass
+
+
+def clone_agrees(obj, want_snap, snap_fn, prop):
+    """Container.clone() (Project / Synth) is one more way of saving and loading."""
+    c = obj.clone()
+    if c is obj or type(c) is not type(obj):
+        raise PropertyViolation(prop + ".container_clone.type", "%s.clone() returned %r" % (type(obj).__name__, c), key=prop + ".container_clone")
+    d = snapshot.diff(want_snap, snap_fn(c))
+    if d:
+        raise PropertyViolation(prop + ".container_clone", "%s.clone(): %s" % (type(obj).__name__, "; ".join("%s: %r -> %r" % x for x in d[:3])), key=prop + ".container_clone")
